@@ -336,3 +336,32 @@ pub fn add_xml_alias(a: &mut crate::adoc::ANode, rng: &mut crate::rng::Rng) -> b
     });
     done
 }
+
+/// An `io::Write` that takes `room` bytes and then fails every call ("no space left on device"): a Write-based entry
+/// point has to hand that failure back as an error
+pub struct FailingWriter {
+    pub room: usize,
+    pub taken: usize,
+    pub failures: u64,
+}
+
+impl FailingWriter {
+    pub fn new(room: usize) -> Self {
+        FailingWriter { room, taken: 0, failures: 0 }
+    }
+}
+
+impl std::io::Write for FailingWriter {
+    fn write(&mut self, data: &[u8]) -> std::io::Result<usize> {
+        if self.taken >= self.room {
+            self.failures += 1;
+            return Err(std::io::Error::new(std::io::ErrorKind::Other, "no space left on device"));
+        }
+        let n = data.len().min(self.room - self.taken).max(1);
+        self.taken += n;
+        Ok(n)
+    }
+    fn flush(&mut self) -> std::io::Result<()> {
+        Ok(())
+    }
+}
